@@ -119,7 +119,7 @@ func TestC02(t *testing.T) {
 	close(ch)
 	wg.Wait()
 	concurrentPhase(run, rng)
-	run.Require("concurrent_cases_with_response_judged", int64(rep.Pick(600, 6000)/map[bool]int{true: 4, false: 1}[rep.Mode() == "race"]))
+	run.Require("concurrent_cases_with_response_judged", int64(rep.Pick(160, 1600)/map[bool]int{true: 4, false: 1}[rep.Mode() == "race"]))
 	run.Require("cases_with_response_judged", int64(rep.Pick(400, 5000)/map[bool]int{true: 4, false: 1}[rep.Mode() == "race"]))
 	run.Require("cases_after_started_response_failed", 20)
 	run.Finish(t)
